@@ -392,7 +392,10 @@ class AdaptivePolicy:
         elapsed = (now - self._last_refill_time).to_seconds()
         if elapsed <= 0:
             return
-        max_tokens = self._current_rate * self._window_size
+        # The bucket must be able to hold at least one whole token, otherwise
+        # try_acquire (which needs tokens >= 1.0) could never succeed again
+        # once current_rate * window_size drops below 1.
+        max_tokens = max(1.0, self._current_rate * self._window_size)
         self._tokens = min(max_tokens, self._tokens + elapsed * self._current_rate)
         self._last_refill_time = now
 
